@@ -440,3 +440,14 @@ func (f *Fresh) returnsFreshRef(fn *ssa.Function) bool {
 	}
 	return ok
 }
+
+// FieldsFreshAt reports whether pointer v is a tracked (fresh, unpublished) seed object before instruction at, and the
+// fields whose referents are fresh.
+func (r *FreshResult) FieldsFreshAt(v ssa.Value, at ssa.Instruction) (uint64, bool) {
+	st := r.at[at]
+	if st == nil {
+		return 0, false
+	}
+	bits, ok := st[v]
+	return bits, ok
+}
